@@ -1037,3 +1037,35 @@ func widthClassFor(r *core.Rand, cells int) int {
 	}
 	return 1 + r.Intn(13)
 }
+
+// sacramentoAdimcStress turns a generated Sacramento cell into the regime in which the additional impervious store falls
+// below the upper tension store: a small lower tension store, a large upper free-water store that big storms fill, and
+// heat-wave PET right after the storms (C10's first stress regime; also used where states are carried across calls).
+func sacramentoAdimcStress(r *core.Rand, ps PSet, in [][]float64) {
+	desc := NewModel("Sacramento").Description()
+	set := func(n string, v float64) { ps[paramIndex(desc, n)] = []float64{v} }
+	set("lztwm", r.Range(5, 12))
+	set("uzfwm", r.Range(40, 75))
+	set("uztwm", r.Range(30, 125))
+	set("adimp", r.Range(0.05, 0.5))
+	if r.Bool(0.6) {
+		set("uzk", r.Range(0, 0.3))
+		set("lzpk", r.Range(0, 0.05))
+		set("lzsk", r.Range(0, 0.3))
+	}
+	iR, iP := indexOf(desc.Inputs, "rainfall"), indexOf(desc.Inputs, "pet")
+	T := len(in[iR])
+	for t := 0; t < T; t++ {
+		in[iR][t], in[iP][t] = 0, r.Range(0, 8)
+		if r.Bool(0.3) {
+			in[iR][t] = r.Exp(15)
+		}
+	}
+	for t := r.Intn(10); t+1 < T; t += r.IntRange(3, 15) {
+		in[iR][t] = r.Range(100, 500)
+		in[iP][t+1] = r.Range(20, 40)
+		if r.Bool(0.5) {
+			in[iR][t+1] = r.Range(0, 40)
+		}
+	}
+}
